@@ -17,6 +17,7 @@ import (
 	"sort"
 	"strings"
 	"sync"
+	"sync/atomic"
 	"syscall"
 	"time"
 
@@ -367,6 +368,7 @@ type nullfs struct {
 	// cancel: the usual FlushOp pattern — Flush cancels a read that is blocked in the implementation with req.Flush()
 	// and wakes its worker, which then gives its (dropped) late answer while the connection goes on serving
 	cancel  bool
+	refuse  atomic.Pointer[go9p.Error]
 	mu      sync.Mutex
 	waiting map[*go9p.SrvReq]chan struct{}
 }
@@ -415,7 +417,16 @@ func (*nullfs) Remove(r *go9p.SrvReq) { r.RespondRremove() }
 func (*nullfs) Stat(r *go9p.SrvReq) {
 	r.RespondRstat(&go9p.Dir{Name: "x", Uid: "u", Gid: "g", Muid: "m"})
 }
-func (*nullfs) Wstat(r *go9p.SrvReq)      { r.RespondRwstat() }
+// Wstat refuses every request of a round with one and the same error value, as implementations do that keep their
+// errors in variables (here a fresh value per round, with and without an error number): it is the implementation's
+// value, handed to several requests at a time, and only to be read by anybody.
+func (fs *nullfs) Wstat(r *go9p.SrvReq) {
+	if e := fs.refuse.Load(); e != nil {
+		r.RespondError(e)
+		return
+	}
+	r.RespondRwstat()
+}
 func (fs *nullfs) Flush(r *go9p.SrvReq) {
 	if !fs.cancel {
 		return
@@ -584,6 +595,17 @@ func raceRaw(ctx *core.Ctx, n, rep int) core.Result {
 					}
 				}
 				waitTags(must)
+				// eight requests on eight fids refused at the same time with the implementation's shared error value
+				if cidx == 0 {
+					fs.refuse.Store(&go9p.Error{Err: fmt.Sprintf("refused in round %d", round), Errornum: uint32(round % 2 * go9p.EPERM)})
+				}
+				ms = nil
+				for k := uint32(0); k < 8; k++ {
+					tag += 4
+					ms = append(ms, &wire.Msg{Type: wire.Twstat, Tag: tag, Fid: base + k*4, Stat: wire.Stat{Type: 0xFFFF, Dev: 0xFFFFFFFF, Qid: wire.Qid{Type: 0xFF, Version: 0xFFFFFFFF, Path: 0xFFFFFFFFFFFFFFFF}, Mode: 0xFFFFFFFF, Atime: 0xFFFFFFFF, Mtime: 0xFFFFFFFF, Length: 0xFFFFFFFFFFFFFFFF, Nuid: wire.NOUID, Ngid: wire.NOUID, Nmuid: wire.NOUID}})
+				}
+				send(ms...)
+				waitTags(ms)
 				ms = nil
 				for k := uint32(0); k < 8; k++ {
 					tag += 4
